@@ -44,6 +44,8 @@ def check_translation(chk, table):
             return m.group(1) + ", ".join(names) + m.group(3)
         s = re.sub(r"(VARIABLES?\s)((?:\s*\w+\s*,)*\s*\w+)(\s)", sort_names, s)
         s = re.sub(r"(vars == <<)(.*?)(>>)", sort_names, s, flags=re.S)
+        # assertion messages quote source positions, which move when the file is edited above the block
+        s = re.sub(r"Failure of assertion at line \d+, column \d+\.", "Failure of assertion.", s)
         return re.sub(r"\s+", " ", s).strip()
     if norm(before) != norm(after):
         chk.violation("C02:%s:stale-translation" % table["name"],
